@@ -250,7 +250,7 @@ def run(ctx):
     # with the history index; placements rotate with the history index
     jobs = [("c16", ["--mode", "gen", "--in", h, "--endian", "both" if i == 0 else "alternate"], "gen%d.ndjson" % i, may_die)
             for i, (h, _) in enumerate(hists)]
-    nrand, writes = (300, 60) if q else (4000, 60)
+    nrand, writes = (900, 60) if q else (4000, 60)
     per = 100 if q else 250
     for i in range(nrand // per):
         jobs.append(("c16", ["--mode", "random", "--n", per, "--writes", writes, "--stream", i], "rand%02d.ndjson" % i, may_die))
